@@ -58,11 +58,13 @@ Definition C02_refines_quadratic_full : Prop :=
     is sound, the first (m+1)/2 quadratic probes of a prime-sized table are pairwise distinct, fewer than
     (m+1)/2 slots are ever non-nil (live + soft-deleted), n counts the live entries, keys are pairwise
     distinct, every entry is reachable along its probe sequence, resizes never nest.
-    Options ([valid_soft]): maxLF <= 1/2, maxLF*31 >= 1, and either 3*minLF <= maxLF or 2*minLF <= maxLF
-    with maxLF = 1/(2c) (1/2, 1/4, 1/8, ...; a parity argument: m and the new size are odd) — the
-    defaults 1/8, 1/2 and the pairs (1/4,1/2), (1/8,1/4) included.  For pairs such as (3/16, 3/8) the
-    real code does nest a resize inside a shrink (m = 107, n = 20: new size 53, the 20th re-insertion
-    grows again); those are covered by the correspondence only.  Capacities: the default or any prime >= 31.  The hypothesis is checked at run time: the correspondence compares
+    Options ([valid_soft]): maxLF <= 1/2 and maxLF*31 >= 1 — any minLF: when the table rebuilt by a
+    shrink grows again while entries are re-inserted (maxLF < 2*minLF, or e.g. (3/16, 3/8) at m = 107,
+    n = 20: new size 53, the 20th re-insertion grows it) every inner step is an ordinary Put on a table
+    satisfying the invariant, and the nesting stops there.  Capacities: the default or any prime >= 31.
+    Excluded, and outside the property's domain ("bounds no looser than the defaults"): maxLF > 1/2
+    (see [C02_quadratic_maxlf_above_half_hangs] below: the code itself hangs) and maxLF*31 < 1.
+    The hypothesis is checked at run time: the correspondence compares
     the table size after every resize with the implementation's. *)
 Theorem C02_refines_quadratic_partial : prime_gap -> C02_refines_quadratic_full.
 Proof. intros G K V eqb eqv hash minlf maxlf He Hv cap Hc orc Ho ops. apply quad_refines; auto. Qed.
@@ -87,7 +89,7 @@ Proof.
 Qed.
 
 (** Double hashing with soft deletion (after the fixes of D02, D03): same shape; options ([valid_dbl]):
-    maxLF <= 1/2, maxLF*31 >= 1, 2*minLF <= maxLF (every pair with ratio >= 2).  Proved in addition to
+    maxLF <= 1/2, maxLF*31 >= 1, any minLF.  Proved in addition to
     the items listed for quadratic probing: the step h2 computed by [probe] is never a multiple of the
     prime size, so the m probes h1 + i*h2 are pairwise distinct, and (live + soft-deleted) < m always. *)
 Definition C02_refines_double_full : Prop :=
@@ -163,16 +165,28 @@ Qed.
 
 Example C02_soft_defaults_valid :
   valid_soft {| lf_num := 1; lf_den := 8 |} {| lf_num := 1; lf_den := 2 |} /\
-  valid_soft {| lf_num := 1; lf_den := 4 |} {| lf_num := 1; lf_den := 2 |} /\
-  valid_dbl {| lf_num := 3; lf_den := 16 |} {| lf_num := 3; lf_den := 8 |} /\
+  valid_soft {| lf_num := 3; lf_den := 16 |} {| lf_num := 3; lf_den := 8 |} /\
+  valid_soft {| lf_num := 3; lf_den := 8 |} {| lf_num := 1; lf_den := 2 |} /\
+  valid_dbl {| lf_num := 1; lf_den := 4 |} {| lf_num := 3; lf_den := 8 |} /\
   valid_cap_prime 0 /\ valid_cap_prime 67.
 Proof.
-  split; [unfold valid_soft; simpl; repeat split; auto with arith|].
-  split; [unfold valid_soft; simpl; split; [|split; [|split; [|split]]]; auto with arith; right; repeat split; auto with arith|].
+  split; [unfold valid_soft; simpl; repeat split; auto 20 with arith|].
+  split; [unfold valid_soft; simpl; repeat split; auto 20 with arith|].
+  split; [unfold valid_soft; simpl; repeat split; auto 20 with arith|].
   split; [unfold valid_dbl; simpl; repeat split; auto 20 with arith|].
   split; [left; reflexivity|right; split; [|reflexivity]].
   repeat constructor.
 Qed.
+
+(** Why maxLF <= 1/2 is needed for quadratic probing (outside the property's domain, which only admits
+    bounds no looser than the defaults): with maxLF = 9/10 and a constant hash the 17th Put finds none of
+    the 16 slots its probe sequence can reach empty, and never returns — in the model and in the code. *)
+Example C02_quadratic_maxlf_above_half_hangs :
+  let put := fun (r : res (table nat nat)) k =>
+               bind r (fun t => put nat nat Nat.eqb (fun _ => 0%N) {| lf_num := 9; lf_den := 10 |} (fun l => l) t k k) in
+  fold_left put (seq 0 16) (create nat nat Quadratic 0) <> Hang /\
+  fold_left put (seq 0 17) (create nat nat Quadratic 0) = Hang.
+Proof. vm_compute. split; [discriminate|reflexivity]. Qed.
 
 Print Assumptions C02_refines_chain.
 Print Assumptions C02_refines_linear.
